@@ -156,6 +156,8 @@ func newC34Env(seed uint64) *c34Env {
 	if err != nil {
 		panic(err)
 	}
+	e.proc.VerifBlockingPool()
+	e.nproc.VerifBlockingPool()
 	mk := func(handlers bool) event.Listener {
 		l, err := event.NewListener(event.ListenerParams{Logger: zap.NewNop(), Client: e.mc})
 		if err != nil {
@@ -315,6 +317,9 @@ func (e *c34Env) runCase(prev *payload.P2PNotaryRequest, prevCase *c34Case) (c34
 	// the first call
 	first := []int{ctCreate, ctCreateV2, ctCreateV2, ctCreateV2, ctRemove, ctPutEACL, ctSetAttr, ctRemoveAttr, ctAddNode, ctUpdateState}[g.n(10)]
 	second := first == ctCreateV2 && g.p(1, 2)
+	if first == ctCreate || first == ctPutEACL {
+		cand = append(cand, "old_style_method") // not a fault: `put` / `setEACL` take the same arguments and are served by the same handlers
+	}
 	if first == ctCreateV2 {
 		cand = append(cand, "second_foreign_contract", "second_foreign_method", "second_invalid", "second_foreign_contract", "second_foreign_method")
 	}
@@ -360,6 +365,9 @@ func (e *c34Env) runCase(prev *payload.P2PNotaryRequest, prevCase *c34Case) (c34
 	a0, newID, newOwner := e.args(f0.Content, f0.OK, cid.ID{}, 0)
 	if f0.Content == ctGarbage {
 		f0.OK = false
+	}
+	if fs["old_style_method"] {
+		f0.Method = map[int]string{ctCreate: "put", ctPutEACL: "setEACL"}[first]
 	}
 	if fs["unregistered_method"] {
 		f0.Method = strangeMethods[g.n(len(strangeMethods))]
